@@ -396,39 +396,41 @@ func (f *OrefaFile) Readdirnames(n int) (names []string, err error) {
 		return nil, &fs.PathError{Op: op, Path: f.name, Err: f.vfs.err.NotADirectory}
 	}
 
-	if n <= 0 || f.dirNames == nil {
+	// ReadDir and Readdirnames share the cursor of the file, as the functions of os.File do :
+	// the names are those of the entries that ReadDir would have returned.
+	if n <= 0 || f.dirEntries == nil {
 		avfs.VerifBeforeLock(&nd.mu, false)
 		nd.mu.RLock()
-		names = nd.dirNames()
+		de := nd.dirEntries()
 		nd.mu.RUnlock()
 
 		f.dirIndex = 0
 
 		if n <= 0 {
-			f.dirNames = nil
+			f.dirEntries = nil
 
-			return names, nil
+			return namesOf(de), nil
 		}
 
-		f.dirNames = names
+		f.dirEntries = de
 	}
 
 	start := f.dirIndex
-	if start >= len(f.dirNames) {
+	if start >= len(f.dirEntries) {
 		f.dirIndex = 0
-		f.dirNames = nil
+		f.dirEntries = nil
 
 		return nil, io.EOF
 	}
 
 	end := start + n
-	if end > len(f.dirNames) || end < start { // end < start : start + n overflowed.
-		end = len(f.dirNames)
+	if end > len(f.dirEntries) || end < start { // end < start : start + n overflowed.
+		end = len(f.dirEntries)
 	}
 
 	f.dirIndex = end
 
-	return f.dirNames[start:end], nil
+	return namesOf(f.dirEntries[start:end]), nil
 }
 
 // Seek sets the offset for the next Read or Write on file to offset, interpreted
@@ -813,4 +815,18 @@ func (info *OrefaInfo) Uid() int {
 // Nlink returns the number of hard links.
 func (info *OrefaInfo) Nlink() uint64 {
 	return uint64(info.nlink)
+}
+
+// namesOf returns the names of the directory entries.
+func namesOf(entries []fs.DirEntry) []string {
+	if len(entries) == 0 {
+		return nil
+	}
+
+	names := make([]string, len(entries))
+	for i, de := range entries {
+		names[i] = de.Name()
+	}
+
+	return names
 }
